@@ -97,26 +97,26 @@ Proof. induction 1 as [|m Hle IH]; [auto|]. intro Hu. apply res_name_of_S. auto.
 (** * Deciding *)
 Definition decides (r : R unit) (P : Prop) : Prop := (r = Ok tt /\ P) \/ ((exists e, r = Err e) /\ ~ P).
 
-Lemma decides_iff r P Q : (P <-> Q) -> decides r P -> decides r Q.
+Lemma decides_iff r (P Q : Prop) : (P <-> Q) -> decides r P -> decides r Q.
 Proof. unfold decides. intros H [[? ?]|[? ?]]; [left | right]; tauto. Qed.
-Lemma decides_ok P : P -> decides ok P.
+Lemma decides_ok (P : Prop) : P -> decides ok P.
 Proof. left. split; [reflexivity | assumption]. Qed.
-Lemma decides_err e P : ~ P -> decides (Err e) P.
+Lemma decides_err e (P : Prop) : ~ P -> decides (Err e) P.
 Proof. right. split; [eauto | assumption]. Qed.
-Lemma decides_bind r1 r2 P1 P2 : decides r1 P1 -> decides r2 P2 -> decides (_ <- r1 ;; r2) (P1 /\ P2).
+Lemma decides_bind r1 r2 (P1 P2 : Prop) : decides r1 P1 -> decides r2 P2 -> decides (_ <- r1 ;; r2) (P1 /\ P2).
 Proof.
   intros [[-> H1]|[[e ->] H1]] H2; cbn [bind].
   - eapply decides_iff; [|exact H2]. tauto.
   - apply decides_err. tauto.
 Qed.
-Lemma decides_if (c : bool) e r P Q : (c = true -> ~ Q) -> (c = false -> decides r P) -> (c = false -> (P <-> Q)) ->
+Lemma decides_if (c : bool) e r (P Q : Prop) : (c = true -> ~ Q) -> (c = false -> decides r P) -> (c = false -> (P <-> Q)) ->
   decides (if c then Err e else r) Q.
 Proof.
   destruct c; intros H1 H2 H3.
   - apply decides_err. auto.
   - eapply decides_iff; [apply H3 | apply H2]; reflexivity.
 Qed.
-Lemma decides_is_ok r P : decides r P -> (is_ok r = true <-> P).
+Lemma decides_is_ok r (P : Prop) : decides r P -> (is_ok r = true <-> P).
 Proof. intros [[-> H]|[[e ->] H]]; cbn [is_ok]; intuition discriminate. Qed.
 
 Lemma lookup_tag {A} tag (l : list A) i x : lookup tag l i = Some x -> id_tag i = tag.
